@@ -398,6 +398,8 @@ def main(ctx):
                 "plus %s seeded larger layouts (7..%s candidates, 1-2 shards) with sampled solvers"
                 % (len(layouts), max(c["n"] for c in layouts), " ".join(args[:4]), n_kl, args[5], args[7]),
     }
+    # growth module: publication and delivery of flip keys through the key pools of real multi-node worlds (KeysPool.tla)
+    cov["key_pools"] = vlib.run_extra(ctx, "extra_keys", quick)
     return vlib.finish(ctx, "model_checking", cov, assumptions=[
         "the Go PRNG and the queue rotation are not modelled: the specification is a relation on (layout, outputs)",
         "flip cids are pairwise distinct (the chain refuses a cid that is already used)",
